@@ -15,7 +15,11 @@ from harness.core import hx, outcome
 LEAN_MODULES = ['CpProps.C11', 'CpProps.C11b']
 RULE = ('fixed-width integers: every value 0..2^16-1 for widths 1-2 and boundary/seeded values (in range and out of '
         'range, negative) for widths 3,4,8 under all four byte orders; flags: seeded subsets of every flag enumeration '
-        'used with parse_numeric_flags; mpints: integers up to 4096 bits of both signs with bit lengths 8k-1,8k,8k+1; '
+        'used with parse_numeric_flags; mpints: integers up to 4096 bits of both signs with bit lengths 8k-1,8k,8k+1 and the '
+        'ends of the k-byte two\'s complement range (-2^(8k-1) and 2^(8k-1)-1, each with both neighbours, k=1..40 and 17 '
+        'larger k), each composed (must be the SHORTEST two\'s complement, checked against int.to_bytes(signed=True) and '
+        'against the RFC 4251 rules on the bytes), parsed from the canonical and from a non-canonical encoding, and '
+        'composed at fixed lengths around the minimal one; '
         'timestamps: boundary and seeded instants, run in child processes under a list of TZ settings. A case is '
         'non-trivial when its value is not 0 and distinct when (op, parameters, value) differs.')
 ASSUMPTIONS = [
@@ -253,7 +257,8 @@ def flag_cases(rng, tier):
 # ------------------------------------------------------------------------------------------------
 
 def _twos_minimal(v):
-    """RFC 4251 mpint body: minimal two's complement, big-endian."""
+    """RFC 4251 mpint body: the SHORTEST two's complement, big-endian (nothing for zero).  Independent of the code under
+    test: the first length int.to_bytes(signed=True) accepts."""
     if v == 0:
         return b''
     n = 1
@@ -264,23 +269,87 @@ def _twos_minimal(v):
             n += 1
 
 
+def _shortest_defects(v, body):
+    """A second, elementary reference for 'shortest two's complement of v' (RFC 4251 section 5), stated on the bytes
+    themselves; returns the list of rules the body breaks."""
+    out = []
+    if int.from_bytes(body, 'big', signed=True) != v:
+        out.append('the data bytes denote {}'.format(int.from_bytes(body, 'big', signed=True)))
+    if v == 0 and body:
+        out.append('zero must have no data bytes')
+    if body and bool(body[0] & 0x80) != (v < 0):
+        out.append('the top bit of the first byte is not the sign')
+    if len(body) >= 2 and body[0] == 0x00 and body[1] < 0x80:
+        out.append('unnecessary leading 00')
+    if len(body) >= 2 and body[0] == 0xff and body[1] >= 0x80:
+        out.append('unnecessary leading ff')
+    length = len(body)
+    if length and -(1 << (8 * (length - 1))) <= 2 * v < (1 << (8 * (length - 1))):
+        out.append('{} fits {} byte(s)'.format(v, length - 1))
+    if not -(1 << (8 * length)) <= 2 * v < (1 << (8 * length)):
+        out.append('{} does not fit {} byte(s)'.format(v, length))
+    return out
+
+
+def _signed_fixed(v, length):
+    """int.to_bytes(length, 'big', signed=True) or None when v is outside -2^(8*length-1) .. 2^(8*length-1)-1 (the range
+    is tested explicitly: CPython returns b'' for (-1).to_bytes(0, signed=True))"""
+    if not -(1 << (8 * length)) <= 2 * v < (1 << (8 * length)):
+        return None
+    return v.to_bytes(length, 'big', signed=True)
+
+
 class MpintOracle(object):
-    """case: {'kind':'mpint','vals':[ints], 'fixed': length or None}"""
+    """case: {'kind':'mpint','vals':[ints], 'pad': extra length of the fixed-length form}"""
 
     @staticmethod
-    def lines(case):
+    def wire(v):
+        body = _twos_minimal(v)
+        return len(body).to_bytes(4, 'big') + body
+
+    @staticmethod
+    def noncanonical(v):
+        """the mpint of v with 1-3 redundant sign bytes in front of the canonical data (accepted by parsers, never sent)"""
+        body = (b'\xff' if v < 0 else b'\x00') * (1 + abs(v) % 3) + _twos_minimal(v)
+        return len(body).to_bytes(4, 'big') + body
+
+    @staticmethod
+    def negative_lengths(v, pad):
+        """fixed lengths tried for a negative v: the old over-estimate, the minimal signed length, one less, some more"""
+        lmin = len(_twos_minimal(v))
+        return [(v.bit_length() + 8) // 8] + sorted({lmin, lmin - 1, lmin + 1 + pad})
+
+    @classmethod
+    def ops(cls, case):
+        """the operations of a case, in order: ('CS', v) ('PS', bytes) ('CM', length, v) ('PM', length, bytes)"""
         out = []
         for v in case['vals']:
-            out.append('CS {}'.format(v))
-            out.append('PS {}'.format(hx((len(_twos_minimal(v))).to_bytes(4, 'big') + _twos_minimal(v) + b'\x7f')))
+            out.append(('CS', v))
+            out.append(('PS', cls.wire(v) + b'\x7f'))
+            out.append(('PS', cls.noncanonical(v) + b'\x5a'))
             if v >= 0:
                 length = max(1, (v.bit_length() + 7) // 8) + case['pad']
-                out.append('CM {} {}'.format(length, v))
-                out.append('PM {} {}'.format(length, hx(v.to_bytes(length, 'big') + b'\x01')))
-                for small in MpintOracle.small_lengths(v):
-                    out.append('CM {} {}'.format(small, v))
+                out.append(('CM', length, v))
+                out.append(('PM', length, v.to_bytes(length, 'big') + b'\x01'))
+                for small in cls.small_lengths(v):
+                    out.append(('CM', small, v))
             else:
-                out.append('CM {} {}'.format((v.bit_length() + 8) // 8, v))
+                for length in cls.negative_lengths(v, case['pad']):
+                    out.append(('CM', length, v))
+        return out
+
+    @classmethod
+    def lines(cls, case):
+        out = []
+        for op in cls.ops(case):
+            if op[0] == 'CS':
+                out.append('CS {}'.format(op[1]))
+            elif op[0] == 'PS':
+                out.append('PS {}'.format(hx(op[1])))
+            elif op[0] == 'CM':
+                out.append('CM {} {}'.format(op[1], op[2]))
+            else:
+                out.append('PM {} {}'.format(op[1], hx(op[2])))
         return out
 
     @staticmethod
@@ -331,39 +400,49 @@ class MpintOracle(object):
     @classmethod
     def impl(cls, case):
         out = []
-        for v in case['vals']:
-            out.append(cls._cs(v))
-            out.append(cls._ps((len(_twos_minimal(v))).to_bytes(4, 'big') + _twos_minimal(v) + b'\x7f'))
-            if v >= 0:
-                length = max(1, (v.bit_length() + 7) // 8) + case['pad']
-                out.append(cls._cm(v, length))
-                out.append(cls._pm(v.to_bytes(length, 'big') + b'\x01', length))
-                for small in cls.small_lengths(v):
-                    out.append(cls._cm(v, small))
+        for op in cls.ops(case):
+            if op[0] == 'CS':
+                out.append(cls._cs(op[1]))
+            elif op[0] == 'PS':
+                out.append(cls._ps(op[1]))
+            elif op[0] == 'CM':
+                out.append(cls._cm(op[2], op[1]))
             else:
-                out.append(cls._cm(v, (v.bit_length() + 8) // 8))
+                out.append(cls._pm(op[2], op[1]))
         return out
 
     @classmethod
     def prop(cls, case):
         bad = []
         for v in case['vals']:
-            body = _twos_minimal(v)
-            wire = len(body).to_bytes(4, 'big') + body
+            wire = cls.wire(v)
             got = cls._cs(v)
-            if v >= 0 and got != 'OK ' + hx(wire):
-                bad.append(('sshmpint-minimal', 'compose_ssh_mpint({}) = {} expected canonical {}'.format(v, got, hx(wire))))
-                continue
-            if not got.startswith('OK '):
-                bad.append(('sshmpint-compose', 'compose_ssh_mpint({}) = {}'.format(v, got)))
+            # the composed form of EVERY integer, negative ones included, is the canonical one: the shortest two's
+            # complement (reference 1: int.to_bytes(signed=True) at the first length it accepts)
+            if got != 'OK ' + hx(wire):
+                bad.append(('sshmpint-minimal', 'compose_ssh_mpint({}) = {} expected the shortest two\'s complement {} '
+                            '(RFC 4251 section 5: no unnecessary leading 00/ff)'.format(v, got, hx(wire))))
                 continue
             composed = core.unhx(got[3:])
+            # reference 2: the rules of RFC 4251 section 5 on the bytes themselves
+            defects = _shortest_defects(v, composed[4:])
+            if defects or int.from_bytes(composed[:4], 'big') != len(composed) - 4:
+                bad.append(('sshmpint-minimal', 'compose_ssh_mpint({}) = {}: {}'.format(
+                    v, got, '; '.join(defects) or 'wrong length field')))
+                continue
             back = cls._ps(composed + b'\x99')
             if back != 'OK {} {}'.format(len(composed), v):
                 bad.append(('sshmpint-roundtrip', 'parse_ssh_mpint(compose_ssh_mpint({})) = {}'.format(v, back)))
             back = cls._ps(wire + b'\x7f')
             if back != 'OK {} {}'.format(len(wire), v):
                 bad.append(('sshmpint-parse', 'parse_ssh_mpint of canonical {} = {} expected {}'.format(hx(wire), back, v)))
+            # a non-canonical encoding (redundant sign bytes) is read as the same integer, which re-composes to the
+            # canonical form (checked above), i.e. to something shorter than what was read
+            loose = cls.noncanonical(v)
+            back = cls._ps(loose + b'\x5a')
+            if back != 'OK {} {}'.format(len(loose), v):
+                bad.append(('sshmpint-parse-noncanonical', 'parse_ssh_mpint of {} = {} expected {} {}'.format(
+                    hx(loose), back, len(loose), v)))
             if v >= 0:
                 length = max(1, (v.bit_length() + 7) // 8) + case['pad']
                 want = v.to_bytes(length, 'big')
@@ -378,19 +457,41 @@ class MpintOracle(object):
                         bad.append(('mpint-range', 'compose_mpint({}, {}) does not fit but gave {}'.format(
                             v, small, cls._cm(v, small))))
             else:
-                length = (v.bit_length() + 8) // 8
-                got = cls._cm(v, length)
-                if got.startswith('OK '):
-                    back = cls._pm(core.unhx(got[3:]), length)
-                    if back != 'OK {} {}'.format(length, v):
-                        bad.append(('mpint-fixed-negative', 'compose_mpint({}, {}) = {} parses back as {}'.format(
-                            v, length, got, back)))
+                for length in cls.negative_lengths(v, case['pad']):
+                    got = cls._cm(v, length)
+                    # a negative value is written as its two's complement in `length` bytes when
+                    # -2^(8*length-1) <= v (the boundary included), and refused otherwise - never truncated
+                    want = _signed_fixed(v, length)
+                    expect = 'ERR InvalidValue' if want is None else 'OK ' + hx(want)
+                    if got != expect:
+                        bad.append(('mpint-compose-negative', 'compose_mpint({}, {}) = {} expected {}'.format(
+                            v, length, got, expect)))
+                        continue
+                    if got.startswith('OK '):
+                        back = cls._pm(core.unhx(got[3:]), length)
+                        if back != 'OK {} {}'.format(length, v):
+                            bad.append(('mpint-fixed-negative', 'compose_mpint({}, {}) = {} parses back as {}'.format(
+                                v, length, got, back)))
         return bad
+
+
+MPINT_BOUNDARY_KS = list(range(1, 41)) + [48, 64, 96, 100, 127, 128, 129, 200, 255, 256, 257, 300, 384, 400, 500, 511, 512]
+
+
+def mpint_boundary_values():
+    """the ends of the k-byte two's complement range and their neighbours: the most negative k-byte value -2^(8k-1)
+    must take k bytes (not k+1), one below it k+1 bytes; likewise 2^(8k-1)-1 (k bytes) and 2^(8k-1) (k+1 bytes)"""
+    vals = set()
+    for k in MPINT_BOUNDARY_KS:
+        edge = 1 << (8 * k - 1)
+        vals.update([-edge, -edge - 1, -edge + 1, edge - 1, edge, edge + 1, -(edge << 1), -(edge << 1) + 1, -(edge >> 1) if k > 1 else -1])
+    return vals
 
 
 def mpint_cases(rng, tier):
     vals = set([0, 1, -1, 127, 128, 255, 256, -127, -128, -129, -255, -256, -257, -32768, 32767, 32768, 0x9a378f9b2e332a7,
-                -0xdeadbeef])
+                -0xdeadbeef, -0x1234, -32769, -32767, -8388608, -8388609, -2147483648, -2147483649])
+    vals.update(mpint_boundary_values())
     maxbits = 4096
     ks = list(range(1, 40)) + [64, 128, 255, 256, 257, 511, 512]
     if tier != 'quick':
@@ -413,7 +514,8 @@ def mpint_cases(rng, tier):
         r = rng.getrandbits(bits)
         vals.add(r)
         vals.add(-r)
-    vals = sorted(vals)
+    # boundary values first (smallest magnitude first), so that a fault at -2^(8k-1) is reported on -128
+    vals = sorted(vals, key=lambda x: (abs(x), x))
     cases = []
     for i in range(0, len(vals), 200):
         cases.append({'kind': 'mpint', 'vals': vals[i:i + 200], 'pad': (i // 200) % 4})
@@ -684,7 +786,7 @@ def run(run, driver_ok=True, deep=False):
                 if v:
                     run.note_nontrivial(('mpint', v))
     run.sample({'kind': 'num', 'bo': 'big', 'k': 3, 'vals': [16777215, 16777216]})
-    run.sample(cases[-1] if cases[-1]['kind'] != 'num' else {'kind': 'mpint', 'vals': [-32768]})
+    run.sample(cases[-1] if cases[-1]['kind'] != 'num' else {'kind': 'mpint', 'vals': [-32768], 'pad': 0})
     for c in cases:
         if c['kind'] == 'flags' and c['vals']:
             run.sample(c)
@@ -745,6 +847,13 @@ def search(run, proof):
 
 
 def replay(case):
+    """what a recorded failing input reproduces now; hits of known findings (e.g. the fixed-length sign, which every
+    negative value of an mpint case shows) are not what a replay file was recorded for and are left out"""
+    known = core.KnownFindings()
+    return [(key, message) for key, message in _replay(case) if known.lookup('C11', key) is None]
+
+
+def _replay(case):
     tz = case.pop('TZ', None)
     if tz:
         env = dict(os.environ)
